@@ -32,6 +32,8 @@ pub struct CliOut {
     pub stderr: Vec<u8>,
     pub wall_ms: u64,
     pub max_rss_kb: u64,
+    /// user + system CPU time of the child in milliseconds (independent of the load on the machine)
+    pub cpu_ms: u64,
 }
 
 impl CliOut {
@@ -217,25 +219,26 @@ pub fn run_cli_bytes(src: &[u8], stdin: &[u8], o: &CliOpts) -> CliOut {
         let _ = w.join();
     }
     // reap with wait4 to learn the child's peak resident set size
-    let (code, sig, max_rss_kb) = unsafe {
+    let (code, sig, max_rss_kb, cpu_ms) = unsafe {
         let mut st: libc::c_int = 0;
         let mut ru: libc::rusage = std::mem::zeroed();
         let r = libc::wait4(child.id() as libc::pid_t, &mut st, 0, &mut ru);
+        let cpu = (ru.ru_utime.tv_sec as u64 + ru.ru_stime.tv_sec as u64) * 1000 + (ru.ru_utime.tv_usec as u64 + ru.ru_stime.tv_usec as u64) / 1000;
         if r < 0 {
-            (None, None, 0)
+            (None, None, 0, 0)
         } else if libc::WIFEXITED(st) {
-            (Some(libc::WEXITSTATUS(st)), None, ru.ru_maxrss as u64)
+            (Some(libc::WEXITSTATUS(st)), None, ru.ru_maxrss as u64, cpu)
         } else if libc::WIFSIGNALED(st) {
-            (None, Some(libc::WTERMSIG(st)), ru.ru_maxrss as u64)
+            (None, Some(libc::WTERMSIG(st)), ru.ru_maxrss as u64, cpu)
         } else {
-            (None, None, ru.ru_maxrss as u64)
+            (None, None, ru.ru_maxrss as u64, cpu)
         }
     };
     drop(so);
     drop(se);
     let _ = std::fs::remove_file(&path);
     let (status, signal) = if timed_out || capped { (None, None) } else { (code, sig) };
-    CliOut { status, signal, timed_out, capped, stdout: out, stderr: err, wall_ms: t0.elapsed().as_millis() as u64, max_rss_kb }
+    CliOut { status, signal, timed_out, capped, stdout: out, stderr: err, wall_ms: t0.elapsed().as_millis() as u64, max_rss_kb, cpu_ms }
 }
 
 pub fn run_cli(src: &str, stdin: &str, o: &CliOpts) -> CliOut {
